@@ -1,8 +1,8 @@
-(* C22 proofs, part 6: the recursion of next_token over consecutive comments.
-   lexer_comment_depth_l: on n consecutive line comments the model's next_token nests exactly n calls of
-   itself (the `Again` path = `self.next_token()` in scan_minus): one Rust stack frame per comment, with no
-   bound other than the input length.  The stack overflow itself (finding F-C22-12) is observed on the
-   compiled code; this lemma shows where the frames come from. *)
+(* C22 proofs, part 6: consecutive comments are skipped by ITERATIONS of next_token's loop.
+   lexer_comment_depth_l: on n consecutive line comments ONE call of next_token skips all n of them (the
+   counter in its result = iterations that ended with `continue`) and returns Eof.  Before /repo d86c1b1
+   the same counter counted nested self.next_token() calls, one Rust stack frame per comment (finding
+   F-C22-12, fixed); in the repaired lexer modelled here there is no call in that path at all. *)
 From Coq Require Import ZArith List Bool Arith Lia ZifyBool.
 From TV Require Import Model.LexerKeywords Model.Lexer.
 Import ListNotations.
@@ -65,7 +65,7 @@ Proof.
   replace (l <? u32_max) with true by lia. reflexivity.
 Qed.
 
-(* one comment: from the first '-' of comment k to the first byte after its newline *)
+(* one comment: one iteration of the loop, from the first '-' of comment k to its newline *)
 Lemma one_comment : forall k f l, (k < n)%nat -> l < u32_max ->
   next_token s (S f) (mkLx (3 * k) l 1) =
   (do ' (t, ts, st3, d) <- next_token s f (mkLx (3 * k + 2) l 3); Ok (t, ts, st3, S d)).
@@ -76,27 +76,24 @@ Proof.
   rewrite eof_at. replace (3 * n <=? 3 * k)%nat with false by (symmetry; apply Nat.leb_gt; lia).
   rewrite (cur_at _ _ _ _ H0). cbn [bind]. change (is_ws 45) with false. cbv iota. cbn [bind].
   rewrite eof_at. replace (3 * n <=? 3 * k)%nat with false by (symmetry; apply Nat.leb_gt; lia).
-  (* scan_token -> scan_minus *)
-  unfold scan_token. rewrite (cur_at _ _ _ _ H0). cbn [bind].
-  change (is_ident_start 45) with false. change (is_digit 45) with false. cbv iota.
-  change (45 =? 39) with false. change (45 =? 34) with false. change (45 =? 96) with false.
-  change (45 =? 36) with false. change (45 =? 58) with false. change (45 =? 64) with false.
-  change (45 =? 63) with false. change (45 =? 45) with true. cbv iota.
-  unfold scan_minus.
+  (* comment_or_token: "--" *)
+  unfold comment_or_token. rewrite (cur_at _ _ _ _ H0). cbn [bind].
+  unfold peek_char. cbn [pos]. replace (S (3 * k)) with (3 * k + 1)%nat by lia. rewrite H1.
+  change ((45 =? 45) && opt_is (Some 45) 45) with true. cbv iota.
+  (* skip to the newline: two '-' are consumed, the loop stops at the newline *)
+  assert (Hlen : lfuel s = S (S (S (len s - 2)))) by (unfold lfuel; rewrite len_s; lia).
+  rewrite Hlen at 1. cbn [skip_while].
+  rewrite eof_at. replace (3 * n <=? 3 * k)%nat with false by (symmetry; apply Nat.leb_gt; lia).
+  rewrite (cur_at _ _ _ _ H0). cbn [bind]. change (not_newline 45) with true. cbv iota.
   rewrite (adv_plain _ _ _ _ H0 eq_refl) by (unfold u32_max; lia). cbn [bind].
-  rewrite eof_at. replace (3 * n <=? S (3 * k))%nat with false by (symmetry; apply Nat.leb_gt; lia).
   replace (S (3 * k)) with (3 * k + 1)%nat by lia.
-  rewrite (cur_at _ _ _ _ H1). cbn [bind]. change (45 =? 45) with true. cbv iota.
-  (* skip to the newline *)
-  unfold lfuel at 1. cbn [skip_while].
   rewrite eof_at. replace (3 * n <=? 3 * k + 1)%nat with false by (symmetry; apply Nat.leb_gt; lia).
   rewrite (cur_at _ _ _ _ H1). cbn [bind]. change (not_newline 45) with true. cbv iota.
   rewrite (adv_plain _ _ _ _ H1 eq_refl) by (unfold u32_max; lia). cbn [bind].
   replace (S (3 * k + 1)) with (3 * k + 2)%nat by lia.
-  assert (Hlen : len s = S (len s - 1)) by (rewrite len_s; lia).
-  rewrite Hlen. cbn [skip_while].
   rewrite eof_at. replace (3 * n <=? 3 * k + 2)%nat with false by (symmetry; apply Nat.leb_gt; lia).
   rewrite (cur_at _ _ _ _ H2). cbn [bind]. change (not_newline 10) with false. cbv iota.
+  change (1 + 1 + 1) with 3.
   reflexivity.
 Qed.
 
@@ -137,7 +134,7 @@ Proof.
     rewrite (cur_at _ _ _ _ H). cbn [bind]. change (is_ws 45) with false. cbv iota. reflexivity.
 Qed.
 
-(* m consecutive comments from comment k on: m nested next_token calls *)
+(* m consecutive comments from comment k on: m iterations *)
 Lemma comments_depth : forall m k f l, (k + m = n)%nat -> (m < f)%nat -> l + Z.of_nat m <= u32_max ->
   next_token s f (mkLx (3 * k) l 1) =
   Ok (T k_eof, (3 * n)%nat, mkLx (3 * n) (l + Z.of_nat m) 1, m).
@@ -156,7 +153,7 @@ Proof.
 Qed.
 End Rec.
 
-(* n consecutive comments cost n nested calls of next_token (one Rust stack frame each) *)
+(* n consecutive comments: n iterations of the loop inside one next_token call, then Eof *)
 Lemma lexer_comment_depth_l : forall n, Z.of_nat n < u32_max ->
   lex (comments n) = Ok ([L (T k_eof) (3 * n) (3 * n)], mkLx (3 * n) (1 + Z.of_nat n) 1, n).
 Proof.
